@@ -176,6 +176,8 @@ def check_case(case) -> Obs:
                 continue
             op["src"] = troughs[op["src"] % len(troughs)]
             op["cap"] = case["M"]
+            if k % 2:
+                op["distinct_on"] = "evo"  # wells distinct by id; on the Fluent several of them may share a position
         if kind == "evo_dispense":
             op["cap"] = case["M"]
             if case["device"] != "evo":
